@@ -26,7 +26,7 @@ ASSUMPTIONS = [
     "representability of numbers at settings.decimals and numeric equality after re-import are not decided",
     "identifier names and single-line descriptions without '#' (property precondition)",
 ]
-FLOORS = {"T13": 3, "T4": 24, "T5": 18, "T6": 23, "T7": 7, "T8": 6, "T9": 50, "T10": 20, "T11": 1}
+FLOORS = {"T13": 3, "T14": 6, "T4": 24, "T5": 18, "T6": 23, "T7": 7, "T8": 6, "T9": 50, "T10": 20, "T11": 1}
 
 KIND_BY_ANNOTATION = [("bool", "boolean"), ("float", "to_float"), ("SNorm", "snorm"), ("TNorm", "tnorm"),
                       ("Defuzzifier", "defuzzifier"), ("Activation", "activation"), ("str", "raw")]
@@ -63,6 +63,7 @@ def run(check: Check) -> None:
     field_coverage(check)
     keywords(check)
     line_syntax(check)
+    engine_threading(check)
     if check.tier == "thorough":
         corpus(check)
     check.exhaustive_parts += ["writer/reader tables compared entry by entry"]
@@ -745,6 +746,48 @@ def keywords(check: Check) -> None:
 
     a, b = kws(rt), kws(rp)
     check.require(a == b == {"IF", "THEN", "WITH"}, "T11", "Rule/keywords", f"Rule.text writes {sorted(a)} and Rule.parse reads {sorted(b)}", loc(rt))
+
+
+def engine_threading(check: Check) -> None:
+    """T14: the engine under construction is handed down to every reader that takes one (terms and rules refer to it)."""
+    p = check.program
+    imp = p.cls("FllImporter")
+    with_engine = {name: [q.name for q in f.params].index("engine") - 1 for name, f in imp.methods.items() if "engine" in [q.name for q in f.params]}
+    sites = 0
+    for name in ("engine", "_process", "input_variable", "output_variable", "rule_block", "term", "rule"):
+        fn = imp.methods.get(name)
+        if fn is None:
+            raise AnalysisError(f"anchor vanished: FllImporter.{name}")
+        check.analysed(fn)
+        r = Resolver(p, fn)
+        own = ("param", "engine") if "engine" in [q.name for q in fn.params] else None
+        for n, c in r.cfg.all_calls():
+            t = r.term(c, n)
+            if not (t[0] == "call" and t[1][0] == "attr"):
+                continue
+            callee, recv = t[1][2], t[1][1]
+            idx = None
+            if recv == ("param", "self") and callee in with_engine:
+                idx = with_engine[callee]
+            elif callee == "update_reference":
+                idx = 0
+            elif t[1] == ("attr", ("global", "fuzzylite.rule.Rule"), "create") or (t[1][0] == "global" and t[1][1].endswith("Rule.create")):
+                idx = 1
+            if t[1] == ("global", "fuzzylite.rule.Rule.create"):
+                idx = 1
+            if idx is None:
+                continue
+            sites += 1
+            kw = dict(t[3])
+            arg = t[2][idx] if len(t[2]) > idx else kw.get("engine")
+            good = arg is not None and (arg == own or (arg[0] == "call" and arg[1] == ("global", "fuzzylite.engine.Engine")))
+            check.require(good, "T14", f"FllImporter.{name}->{callee}", f"{name} hands the engine on to {callee}" if good else
+                          f"{name} calls {callee} without the engine being imported ({show(arg) if arg else 'argument omitted, default None'}): "
+                          "terms/rules read there are not linked to the engine (Linear/Function terms cannot be evaluated after import)", loc(fn, n))
+    for n, c in Resolver(p, p.func("FllImporter.rule")).cfg.all_calls():
+        pass
+    if sites < 6:
+        raise AnalysisError(f"T14: only {sites} engine hand-over sites found in the importer")
 
 
 def line_syntax(check: Check) -> None:
